@@ -135,7 +135,7 @@ impl Walrus {
                         off,
                         block.used
                     );
-                    BlockStateTracker::set_checkpointed_true(block.id as usize);
+                    BlockStateTracker::set_checkpointed_true(&block.file_path, block.id as usize);
                     info.cur_block_idx += 1;
                     info.cur_block_offset = 0;
                     continue;
@@ -719,7 +719,7 @@ impl Walrus {
             let block = chain[cur_idx].clone();
             if cur_off >= block.used {
                 if info_guard.is_some() {
-                    BlockStateTracker::set_checkpointed_true(block.id as usize);
+                    BlockStateTracker::set_checkpointed_true(&block.file_path, block.id as usize);
                 }
                 cur_idx += 1;
                 cur_off = 0;
